@@ -657,4 +657,25 @@ def dense_hom_sa_set_rest_statement : Prop :=
     (∃ r, npSetIdx (ndOf rows) i v = .ok r) →
     npSetIdx (ndOf rows) i v = .ok (ndOf rows')
 
+/-! ### shape rejection does not look at the stored entries
+
+An operand that holds no entry (built from zeros, or emptied by cancellation / `*= 0` / `clear()`) is
+rejected exactly like any other operand of its length. -/
+
+theorem shape_rejection_ignores_entries (op : Arith) (ip : Bool) (a b : SV) (da db : Dct) :
+    SV.arithSparse op ip { a with dct := da } { b with dct := db } = .error .shape ↔
+      SV.arithSparse op ip a b = .error .shape := by
+  rw [err_iff_arith_sparse, err_iff_arith_sparse]
+
+theorem shape_rejection_of_empty_operand (op : Arith) (ip : Bool) (a b : SV)
+    (h : ¬ ShapeOK a.size b.size) :
+    SV.arithSparse op ip { a with dct := [] } b = .error .shape ∧
+    SV.arithSparse op ip a { b with dct := [] } = .error .shape ∧
+    SV.arithSparse op ip { a with dct := [] } { b with dct := [] } = .error .shape := by
+  refine ⟨?_, ?_, ?_⟩ <;> rw [err_iff_arith_sparse] <;> exact h
+
+theorem cmp_shape_rejection_ignores_entries (op : Cmp) (a b : SV) (da db : Dct) (e : Err) :
+    ({ a with dct := da } : SV).cmpSparse op { b with dct := db } = .error e ↔ a.cmpSparse op b = .error e := by
+  rw [cmpSparse_error_iff, cmpSparse_error_iff]
+
 end ThermoVerif.Props.C09
